@@ -184,6 +184,9 @@ pub struct Shared {
     pub prefilled: Vec<Issued>,
     /// per node: (ghost id, node whose address it has) pairs its views currently also name
     pub ghosts: BTreeMap<u8, Vec<(u8, u8)>>,
+    /// per node: the caller of the node's next operation gives up after this many ms (the future
+    /// of put/put_many/del/del_many is dropped at whatever await point it has reached)
+    pub cancel_next: BTreeMap<u8, u64>,
 }
 
 pub type SharedRef = Rc<RefCell<Shared>>;
@@ -261,6 +264,7 @@ impl<'a> Cluster<'a> {
             deltas_seen: 0,
             prefilled: Vec::new(),
             ghosts: BTreeMap::new(),
+            cancel_next: BTreeMap::new(),
         }));
         if let Some((node, ks, count)) = cfg.prefill.clone() {
             let mut sh = shared.borrow_mut();
@@ -718,19 +722,41 @@ async fn run_op(sh: &SharedRef, node: u8, h: &ReplicatedStoreHandle<SimStorage>,
         r.calls_at_invoke = calls_at_invoke;
     }
     let level = level_of(&spec.level);
-    let res = match spec.kind.as_str() {
-        "put" => h.put(&spec.ks, spec.ids[0], payload_for(&spec, node, op_id, spec.ids[0]), level).await,
-        "put_many" => {
-            let mut docs: Vec<(u64, Vec<u8>)> = spec.ids.iter().map(|i| (*i, payload_for(&spec, node, op_id, *i))).collect();
-            if spec.dup {
-                let mut second = value_for(node, op_id, spec.ids[0]);
-                second.extend_from_slice(b"#second-copy");
-                docs.push((spec.ids[0], second));
-            }
-            h.put_many(&spec.ks, docs, level).await
+    let call = async {
+        match spec.kind.as_str() {
+            "put" => h.put(&spec.ks, spec.ids[0], payload_for(&spec, node, op_id, spec.ids[0]), level).await,
+            "put_many" => {
+                let mut docs: Vec<(u64, Vec<u8>)> = spec.ids.iter().map(|i| (*i, payload_for(&spec, node, op_id, *i))).collect();
+                if spec.dup {
+                    let mut second = value_for(node, op_id, spec.ids[0]);
+                    second.extend_from_slice(b"#second-copy");
+                    docs.push((spec.ids[0], second));
+                }
+                h.put_many(&spec.ks, docs, level).await
+            },
+            "del" => h.del(&spec.ks, spec.ids[0], level).await,
+            _ => h.del_many(&spec.ks, spec.ids.clone(), level).await,
+        }
+    };
+    let give_up = sh.borrow_mut().cancel_next.remove(&node);
+    let res = match give_up {
+        None => call.await,
+        Some(ms) => match tokio::time::timeout(Duration::from_millis(ms), call).await {
+            Ok(r) => r,
+            Err(_) => {
+                // the caller gave up: the call never returned anything. Whatever it had handed to
+                // the keyspace actor or the distributor by then may still happen (the window of
+                // writes that count as this operation stays open, as for a call cut short by a crash)
+                let now = turmoil::elapsed().as_millis() as u64;
+                let mut s = sh.borrow_mut();
+                s.log.u64(op_id as u64).str("cancelled");
+                if let Some(r) = s.ops.iter_mut().find(|r| r.op_id == op_id) {
+                    r.returned_ms = Some(now);
+                    r.result = Some("cancelled".to_string());
+                }
+                return;
+            },
         },
-        "del" => h.del(&spec.ks, spec.ids[0], level).await,
-        _ => h.del_many(&spec.ks, spec.ids.clone(), level).await,
     };
     // ---- the instant the call returns: no await between here and the end of this function ----
     let returned = turmoil::elapsed().as_millis() as u64;
